@@ -175,6 +175,11 @@ func (g *Gateway) handleWebsocketProtocol(ctx context.Context, c *websocket.Conn
 	RegisterTunnel(t, handler)
 	defer RemoveTunnel(t)
 	handler.Process(ctx)
+
+	// the client side is gone: release the connection to the remote desktop host
+	if t.rwc != nil {
+		t.rwc.Close()
+	}
 }
 
 // The legacy protocol (no websockets) uses an RDG_IN_DATA for client -> server
@@ -228,6 +233,15 @@ func (g *Gateway) handleLegacyProtocol(w http.ResponseWriter, r *http.Request, t
 			RegisterTunnel(t, handler)
 			defer RemoveTunnel(t)
 			handler.Process(r.Context())
+
+			// the client side is gone: release the connection to the remote
+			// desktop host and the outgoing channel of this tunnel
+			if t.rwc != nil {
+				t.rwc.Close()
+			}
+			if t.transportOut != nil {
+				t.transportOut.Close()
+			}
 		}
 	}
 }
